@@ -22,11 +22,18 @@ def run(pid, tier, seed):
     ob["cond_timeout"] = ob["cond_timeout"] * TIER_SCALE.get(tier, 1)
     obs.append(ob)
   violations, harness = chunit.run(pid, hp, obs, tier, ev)
+  if hasattr(mod, "ENUM"):
+    ev2, eh = chunit.run_enum(pid, hp, mod.ENUM, ev)
+    violations += ev2
+    harness += eh
   extra_v, extra_h = ([], [])
   if hasattr(mod, "extra_checks"):
     extra_v, extra_h = mod.extra_checks(tier, seed, ev)
   violations += extra_v
   harness += extra_h
+  enum_rows = ev.cov.get("enumerated_obligations", [])
+  ev.cov["obligations"] += len(enum_rows)
+  ev.cov["discharged"] += sum(1 for r in enum_rows if r["exhaustive"])
   n = ev.cov["obligations"]
   ev.cov.update({
     "explanation": "Each obligation is a function over typed symbolic arguments that calls the real repository "
